@@ -182,6 +182,9 @@ func Family(o FamilyOpts) []*Model {
 // Signature groups models by the shape of r0 (rewrite + restriction kinds).
 func (m *Model) Signature() string {
 	d := m.Types["doc"]["r0"]
+	if d == nil {
+		return "no-doc-r0:" + m.String()
+	}
 	s := d.Rewrite.String() + "["
 	for _, r := range d.Restr {
 		s += r.String() + ","
